@@ -341,7 +341,8 @@ def observe(stack, req, variant, pipes):
                 h = build(stack, variant)
                 g = fn(h, list(rk))
                 d = ensure_dict(g)
-                ent["keys"] = [s for s in (speckey(k, names) for k in d) if s is not None]
+                if iscull:      # only the culling contract speaks about the key set of the result
+                    ent["keys"] = [s for s in (speckey(k, names) for k in d) if s is not None]
                 if not iscull:
                     obs["fused"] += fused_groups(stack, g, p)
                 vals = get(d, list(rk))
@@ -637,9 +638,7 @@ def validate_records(ctx, triples, label, report=True):
         return {}
     spec, cfg = ctx.model(ctx.spec("graph", "BlockwiseTrace.tla"), {})
     recs = [record_of("r%d" % i, t[0], t[1], t[2]) for i, t in enumerate(triples)]
-    rejected = {}
-    for lo in range(0, len(recs), 8000):
-        rejected.update(ctx.tlc_validate(spec, recs[lo:lo + 8000], cfg, label=label, timeout=2400, **TLC_OPTS))
+    rejected = _validate_sharded(ctx, spec, cfg, recs, label)
     out = {}
     for i, (stack, req, obs, variant, pyc) in enumerate(triples):
         rid = "r%d" % i
@@ -656,6 +655,50 @@ def validate_records(ctx, triples, label, report=True):
                     ctx.violation(classify(stack, cl, detail), "%s: %s" % (cl, CLAUSES[cl]),
                                   {"stack": stack, "req": req, "variant": variant, "pipes": [p["p"] for p in obs["pipes"]], "clauses": tl})
     return out
+
+
+def _validate_sharded(ctx, spec, cfg, recs, label):
+    """ctx.tlc_validate, with the records dealt to several single-worker TLC processes that run side by side
+    (a trace specification consumes its records sequentially).  Same totality rule: every shard must print one DONE
+    line whose count is the number of records it was given and whose reject count matches its REJECT lines."""
+    import os
+    from concurrent.futures import ThreadPoolExecutor
+    n = max(1, min(ctx.workers, len(recs) // 100))
+    if n == 1:
+        return ctx.tlc_validate(spec, recs, cfg, label=label, timeout=2400, **TLC_OPTS)
+    ctx._c10_shard = getattr(ctx, "_c10_shard", 0) + 1
+    shards = [recs[j::n] for j in range(n)]
+    paths = []
+    for j, sh in enumerate(shards):
+        path = os.path.join(ctx.scratch, "trace-c10-%d-%d.ndjson" % (ctx._c10_shard, j))
+        with open(path, "w") as f:
+            for rec in sh:
+                f.write(json.dumps(rec, separators=(",", ":")) + "\n")
+        paths.append(path)
+
+    def one(j):
+        env = dict(TLC_OPTS["env"], TRACE_FILE=paths[j])
+        return ctx.tlc(spec, cfg, env=env, workers=1, heap=TLC_OPTS["heap"], label="%s [shard %d/%d]" % (label, j + 1, n), timeout=2400)
+
+    with ThreadPoolExecutor(n) as ex:
+        results = list(ex.map(one, range(n)))
+    rejected = {}
+    for sh, r, path in zip(shards, results, paths):
+        mine, done = {}, None
+        for line in r.prints:
+            if line.startswith('<<"REJECT"'):
+                parts = line[2:-2].split(", ", 2)
+                mine.setdefault(parts[1].strip('"'), []).append(parts[2] if len(parts) > 2 else "")
+            elif line.startswith('<<"DONE"'):
+                done = [x.strip() for x in line[2:-2].split(",")]
+        if done is None or int(done[1]) != len(sh):
+            raise MachineryError("trace validation did not consume all %d records of a shard (DONE=%r):\n%s" % (len(sh), done, r.output[-2000:]))
+        if int(done[2]) != len(mine):
+            raise MachineryError("REJECT lines (%d) disagree with the spec's own count (%s)" % (len(mine), done[2]))
+        rejected.update(mine)
+        os.remove(path)
+    ctx.traces += len(recs)
+    return rejected
 
 
 def _detail(obs, cl, stack=None):
@@ -678,7 +721,7 @@ def _detail(obs, cl, stack=None):
 
 
 # ---------------------------------------------------------------- random larger stacks (code -> spec)
-def random_stack(rng, max_layers=4, nbs=(1, 2, 3), max_term=2500):
+def random_stack(rng, max_layers=4, nbs=(1, 2, 2, 3), max_term=700):
     while True:
         st = _random_stack(rng, max_layers, nbs)
         if st is not None and _term_size(st) <= max_term:
@@ -868,26 +911,27 @@ def run(ctx):
     xval = []
     if quick:
         confs = [([_leafconf(("A", (2, 2)), ("B", (2,))), _leafconf(("A", (1, 2)), ("B", (2, 2))), _leafconf(("A", (2,)), ("B", (1,)))],
-                  3, [2, 60, 120], [1, 4, 8], ALL_DECOS, 4)]
+                  3, [2, 30, 60], [1, 2, 4], ALL_DECOS, 4)]
     else:
         nb2 = [(a, b) for a in (1, 2, 3) for b in (1, 2, 3)]
         pairs = [_leafconf(("A", x), ("B", y)) for x in nb2 for y in [(1,), (2,), (3,)] if max(x) >= 2 or max(y) >= 2][:18]
         pairs += [_leafconf(("A", x), ("B", y)) for x in [(2, 2), (1, 3), (3, 2)] for y in [(2, 2), (2, 3), (3, 1)]]
         pairs += [_leafconf(("A", (n,)), ("B", (m,))) for n in (1, 2, 3) for m in (2, 3)]
-        confs = [(pairs, 3, [1, 12, 60], [1, 2, 4], ALL_DECOS, 4)]
+        confs = [(pairs, 3, [1, 60, 200], [1, 4, 8], ALL_DECOS, 4)]
     for leafconfs, depth, mods, patmods, decos, reqcap in confs:
         spec, cfg = ctx.model(ctx.spec("graph", "BlockwiseMC.tla"), mc_constants(ctx, leafconfs, depth, mods, patmods, decos, reqcap),
                               invariants=MC_INVS)
         cases, _r = ctx.tlc_cases(spec, cfg, label="design+cases:stacks depth<=%d mods=%s patmods=%s" % (depth, mods, patmods), timeout=3000, **TLC_OPTS)
         total += len(cases)
-        kept, broken = replay_cases(ctx, cases, ctx.pick(2, 0), ctx.pick(2, 0), keep=ctx.pick(300, 3000))
+        kept, broken = replay_cases(ctx, cases, ctx.pick(2, 6), ctx.pick(2, 3), keep=ctx.pick(200, 3000))
         for c in cases[:2]:
             ctx.sample({"stack": c["st"], "denotes": c["den"], "request": c["reqs"][0]})
-        xval += kept + broken
+        # every clean-sampled observation and a bounded number of the broken ones are re-decided by TLC
+        xval += kept + broken[:ctx.pick(100, 2000)]
         del cases
     # annotations: design check of FuseAnn + cases
     ann_cases = []
-    for mode, mods in (("perkey", [1, 1, 1]), ("mixed", ctx.pick([36, 54, 54], [4, 36, 36]))):
+    for mode, mods in (("perkey", [1, 1, 1]), ("mixed", ctx.pick([54, 72, 72], [6, 36, 36]))):
         spec, cfg = ctx.model(ctx.spec("graph", "BlockwiseAnnMC.tla"),
                               {"Mode": mode, "MaxLayers": 3, "Mods": TLA("<<%s>>" % ",".join(map(str, mods))),
             "Salt": ctx.seed % 997 + 3},
@@ -897,7 +941,7 @@ def run(ctx):
     total += len(ann_cases)
     items = ann_items(ctx, ann_cases, CALLABLE_ANNS)
     # code -> spec: random larger stacks
-    nrand = ctx.pick(600, 12000)
+    nrand = ctx.pick(500, 8000)
     for _ in range(nrand):
         st = random_stack(ctx.rng, ctx.pick(3, 4))
         req = random_request(ctx.rng, st)
